@@ -55,3 +55,14 @@ for p in props:
         m["not_applicable"].append({"property_id": p, "reason": na.get(p, "not yet claimed: model and correspondence check for this property are still being built (see DESIGN.md section 9); machine-checked proof is applicable")})
 json.dump(m, open(os.path.join(ROOT, "MANIFEST.json"), "w"), indent=1)
 print("MANIFEST.json: %d checks, %d not claimed" % (len(m["checks"]), len(m["not_applicable"])))
+
+# DESIGN.md section 11 is assembled from design.d/*.md (what was actually built, per property)
+dp = os.path.join(ROOT, "DESIGN.md")
+d = open(dp).read()
+MARK = "\n## 11. What was built, per property (generated from design.d/)\n"
+if MARK in d:
+    d = d[:d.index(MARK)]
+body = MARK + "\nEach part below is written by whoever built that property's model and check; it records the model scope, the exact theorems, findings with their failing inputs, which seeded or self-made mutations the check catches, and costs.\n\n"
+for f in sorted(glob.glob(os.path.join(ROOT, "design.d", "*.md"))):
+    body += open(f).read().rstrip() + "\n\n"
+open(dp, "w").write(d.rstrip() + "\n" + body)
